@@ -186,19 +186,23 @@ def tlc_ok(module, cfg, **kw):
     return r
 
 
-def spec_hash(*modules):
+def spec_hash(modules=None):
     h = hashlib.sha256()
-    for m in sorted(SPEC.glob("*.tla")):
+    files = sorted(SPEC.glob("*.tla")) if not modules else [SPEC / f"{m}.tla" for m in sorted(modules)]
+    for m in files:
         h.update(m.read_bytes())
     return h.hexdigest()[:16]
 
 
-def generate(module, constants, tag, invariants=("Emit",), workers=4, timeout=1800, env=None):
+def generate(module, constants, tag, invariants=("Emit",), workers=4, timeout=1800, env=None, deps=None):
     """(G) role: run a generator spec, return the list of emitted JSON descriptors. Cached by spec hash."""
     gdir = WORK / "gen"
     gdir.mkdir(parents=True, exist_ok=True)
-    key = hashlib.sha256((spec_hash() + module + json.dumps(constants, sort_keys=True) + json.dumps(env or {}, sort_keys=True) + str(invariants)).encode()).hexdigest()[:16]
+    key = hashlib.sha256((spec_hash(deps) + module + json.dumps(constants, sort_keys=True) + json.dumps(env or {}, sort_keys=True) + str(invariants)).encode()).hexdigest()[:16]
     out = gdir / f"{tag}_{key}.ndjson"
+    for old in gdir.glob(f"{tag}_*"):
+        if key not in old.name:
+            old.unlink()
     if out.exists():
         return [json.loads(l) for l in out.read_text().splitlines()], 0, 0
     cfg = write_cfg(gdir / f"{tag}_{key}.cfg", constants=constants, invariants=invariants)
@@ -228,33 +232,44 @@ def read_ndjson(path):
     return out
 
 
-def split_lines(path, n, outdir, stem):
-    """Splits an NDJSON file into n shard files of consecutive lines; returns [(path, first_line_no, count)]."""
+def split_lines(path, n, outdir, stem, boundary=None):
+    """Splits an NDJSON file into <= n shard files of consecutive lines; returns [(path, first_line_no, count)].
+    With `boundary` (a substring), shards only start at lines containing it (stateful traces: reset events)."""
     lines = Path(path).read_text().splitlines()
     lines = [l for l in lines if l.strip()]
     if not lines:
         return []
     n = max(1, min(n, len(lines)))
     per = (len(lines) + n - 1) // n
-    res = []
-    for i in range(n):
-        chunk = lines[i * per:(i + 1) * per]
-        if not chunk:
+    cuts = [0]
+    while cuts[-1] + per < len(lines):
+        c = cuts[-1] + per
+        if boundary is not None:
+            while c < len(lines) and boundary not in lines[c]:
+                c += 1
+        if c >= len(lines):
             break
+        cuts.append(c)
+    cuts.append(len(lines))
+    res = []
+    for i in range(len(cuts) - 1):
+        chunk = lines[cuts[i]:cuts[i + 1]]
+        if not chunk:
+            continue
         p = Path(outdir) / f"{stem}_{i}.ndjson"
         p.write_text("\n".join(chunk) + "\n")
-        res.append((p, i * per, len(chunk)))
+        res.append((p, cuts[i], len(chunk)))
     return res
 
 
-def validate(module, cfg, trace, shards=None, env=None, xmx="2g", timeout=3600, dfs=False, linear=True):
+def validate(module, cfg, trace, shards=None, env=None, xmx="2g", timeout=3600, dfs=False, linear=True, boundary=None, kinds=("reject",)):
     """(V) role: TLC judges every record of an NDJSON trace (sharded over processes, one worker each).
     Returns (rejects, stats). A reject is the JSON record TLC printed; its 'l' is made global.
     A TLC error (not a judgement) is a tool error."""
     shards = shards or min(NCPU, 12)
     sdir = WORK / "shards"
     sdir.mkdir(parents=True, exist_ok=True)
-    parts = split_lines(trace, shards if linear else 1, sdir, Path(trace).stem + f"_{os.getpid()}")
+    parts = split_lines(trace, shards if linear else 1, sdir, Path(trace).stem + f"_{os.getpid()}", boundary)
     if not parts:
         return [], {"records": 0, "generated": 0, "distinct": 0, "wall": 0.0}
 
@@ -276,7 +291,7 @@ def validate(module, cfg, trace, shards=None, env=None, xmx="2g", timeout=3600, 
                 sys.stderr.write(r.errtext() + "\n")
                 raise ToolError(f"TLC consumed {r.distinct - 1} of {cnt} records of {p}")
             for pr in r.prints:
-                if pr.get("k") == "reject":
+                if pr.get("k") in kinds:
                     pr = dict(pr)
                     pr["l"] = pr.get("l", 0) + off
                     rejects.append(pr)
